@@ -408,6 +408,9 @@ class Gen:
             branches.append((c1, self.block_items(cur_idx, depth, ints)))
         if r.random() < 0.5:
             branches.append((None, self.block_items(cur_idx, depth, ints)))
+        if len(branches) > 1 and r.random() < 0.1:
+            # a branch that is taken and holds nothing (an author's "not yet"): the branches after it stay untouched
+            branches[0] = (r.choice(["True", "1 == 1", c0]), [])
         return {"k": "if", "branches": branches}
 
     def for_block(self, cur_idx, depth, ints):
